@@ -11,6 +11,9 @@ import ProphyModel.Expr
 import ProphyModel.Cpp
 import ProphyModel.Text
 import ProphyModel.Raw
+import ProphyModel.Api
+import ProphyModel.Typing
+import ProphyModel.Copy
 open Lean Prophy Prophy.Driver
 
 structure DState where
@@ -54,6 +57,57 @@ def evalErrJson : Expr.EvalErr → Json
   | .divZero => Json.str "division by zero"
   | .negShift => Json.str "negative shift"
   | .unknown s => Json.str ("unknown name " ++ s)
+
+partial def argOfJson (j : Json) : Except String Api.Arg := do
+  match j with
+  | .null => pure .none
+  | .bool true => pure .true_
+  | .str "flt" => pure .flt
+  | .str "other" => pure .other
+  | .obj _ =>
+    if let .ok v := j.getObjVal? "int" then pure (.int (← v.getInt?))
+    else if let .ok v := j.getObjVal? "str" then pure (.str (← v.getStr?))
+    else if let .ok v := j.getObjVal? "bytes" then pure (.bytes (← ofHex (← v.getStr?)))
+    else if let .ok v := j.getObjVal? "list" then do pure (.list (← (← v.getArr?).toList.mapM argOfJson))
+    else if let .ok v := j.getObjVal? "iter" then do pure (.iter (← (← v.getArr?).toList.mapM argOfJson))
+    else if let .ok v := j.getObjVal? "msg" then do
+      let a ← v.getArr?
+      pure (.msg (← a[0]!.getStr?) (← valOfJson a[1]!))
+    else throw "bad arg object"
+  | _ => throw "bad arg"
+
+def pathOfJson (j : Json) : Except String (List Api.Step) := do
+  (← j.getArr?).toList.mapM fun s => do
+    let a ← s.getArr?
+    match (← a[0]!.getStr?) with
+    | "f" => pure (Api.Step.field (← a[1]!.getNat?))
+    | "e" => pure (Api.Step.elem (← a[1]!.getInt?))
+    | x => throw s!"bad step {x}"
+
+def optInt (j : Json) (k : String) : Except String (Option Int) :=
+  match j.getObjVal? k with
+  | .ok .null => pure none
+  | .ok v => do pure (some (← v.getInt?))
+  | .error _ => pure none
+
+def opOfJson (j : Json) : Except String Api.Op := do
+  let k ← getStr j "op"
+  let p ← pathOfJson (← j.getObjVal? "path")
+  let i := (getNat j "i").toOption.getD 0
+  let a := (j.getObjVal? "a").toOption.getD Json.null
+  match k with
+  | "set" => do pure (.set p i (← argOfJson a))
+  | "setDisc" => do pure (.setDisc p (← argOfJson a))
+  | "append" => do pure (.append p i (← argOfJson a))
+  | "insert" => do pure (.insert p i (← (← j.getObjVal? "idx").getInt?) (← argOfJson a))
+  | "extend" => do pure (.extend p i (← argOfJson a))
+  | "setItem" => do pure (.setItem p i (← (← j.getObjVal? "idx").getInt?) (← argOfJson a))
+  | "setSlice" => do pure (.setSlice p i (← optInt j "lo") (← optInt j "hi") (← optInt j "step") (← argOfJson a))
+  | "delItem" => do pure (.delItem p i (← (← j.getObjVal? "idx").getInt?))
+  | "delSlice" => do pure (.delSlice p i (← optInt j "lo") (← optInt j "hi"))
+  | "remove" => do pure (.remove p i (← argOfJson a))
+  | "add" => pure (.add p i)
+  | x => throw s!"bad op {x}"
 
 def handle (st : DState) (j : Json) : Except String (DState × Json) := do
   let op ← getStr j "op"
@@ -134,6 +188,27 @@ def handle (st : DState) (j : Json) : Except String (DState × Json) := do
     match Raw.swap ty data with
     | some (b, ret) => pure (st, Json.mkObj [("data", toHex b), ("ret", ret)])
     | none => pure (st, Json.mkObj [("fault", true)])
+  | "api_run" =>
+    let ty ← getTy st j
+    let ops ← (← getArr j "ops").toList.mapM opOfJson
+    let init := Api.defaultTy ty
+    -- states after every operation, outcomes, and whether each state is well typed
+    let rec go (v : Val) : List Api.Op → List Json
+      | [] => []
+      | op :: r =>
+        let (nv, e) := Api.step ty v op
+        Json.mkObj [("exc", match e with | some x => Json.str (excName x) | none => Json.null),
+                    ("state", valToJson nv), ("typed", hasType ty nv)] :: go nv r
+    pure (st, Json.mkObj [("init", valToJson init), ("init_typed", hasType ty init), ("steps", Json.arr (go init ops).toArray)])
+  | "py_copy" =>
+    let ty ← getTy st j
+    let v ← valOfJson (← j.getObjVal? "v")
+    let (c, shared) := Copy.copyFrom ty v
+    pure (st, Json.mkObj [("val", valToJson c), ("shared", shared)])
+  | "has_type" =>
+    let ty ← getTy st j
+    let v ← valOfJson (← j.getObjVal? "v")
+    pure (st, Json.mkObj [("typed", hasType ty v)])
   | "py_str" =>
     let ty ← getTy st j
     let v ← valOfJson (← j.getObjVal? "v")
